@@ -1367,3 +1367,15 @@ BREAKING += [
 UNDECIDED += [
     ('u5-li-guard-floordiv', ['C05', 'C07'], [(A, _LI_GUARD, "            if value // 2 >= -1024 and value // 2 <= 1023:")]),
 ]
+
+_CALL_GUARD = "            if value >= (-2**20) and value <= (2**20 - 1):\n                inst = JTypeInstruction(item.line, 'jal', rd='x1', imm=imm)"
+PRESERVING += [
+    ('p5-call-guard-shift', ['C03', 'C05'], [(A, _CALL_GUARD, _CALL_GUARD.replace("value >= (-2**20) and value <= (2**20 - 1)", "(value + 2**20) >> 21 == 0"))]),
+]
+BREAKING += [
+    ('c5-call-guard-shift-wide', ['C05'], [(A, _CALL_GUARD, _CALL_GUARD.replace("value >= (-2**20) and value <= (2**20 - 1)", "(value + 2**20) >> 22 == 0"))]),
+    ('c5-call-guard-halved', ['C05'], [(A, _CALL_GUARD, _CALL_GUARD.replace("value >= (-2**20) and value <= (2**20 - 1)", "value - 2**20 >= (-2**20) and value <= (2**21 - 1)"))]),
+]
+UNDECIDED += [
+    ('u5-call-guard-abs', ['C05'], [(A, _CALL_GUARD, _CALL_GUARD.replace("value >= (-2**20) and value <= (2**20 - 1)", "abs(value) <= 2**20 - 1"))]),
+]
